@@ -135,6 +135,14 @@ def _run(ctx):
     # may end in a zero byte: U+xx00)
     cut = [(F.canon_of(b_), c.ln, (c.fn or "").rsplit("::", 1)[-1]) for b_ in lib.local_scope(F, gt) for c in b_.calls
            if re.search(r"Vec::<.*>::(pop|truncate|retain|drain|remove|dedup\w*|split_off)$|str::<impl str>::(trim\w*|strip_\w+)$|slice::<impl \[T\]>::(trim_ascii\w*|strip_\w+|split_last|rsplit\w*)$", c.fn or "")]
+    # "in the same order": what get_toc returns follows the order in which the outline was walked, so the collection the walk
+    # fills keeps insertion order (an IndexMap or a Vec — a BTreeMap would sort the entries by title, a HashMap shuffle them)
+    so = F.fn("toc::setup_outline_page_ids")
+    tys = [so.lty(i_) for i_ in range(1, so.argc + 1) if re.search(r"Map<|Vec<|Set<", so.lty(i_)) and "Outline" not in so.lty(i_).split("<")[0]]
+    coll = [t_ for t_ in tys if re.search(r"^&mut ", t_)]
+    ctx.ob(R, "toc-keeps-walk-order", bool(coll) and all(re.search(r"indexmap::(map::)?IndexMap<|(^|[^A-Za-z])Vec<", t_) and not re.search(r"BTreeMap<|HashMap<", t_.split("<")[0] + "<") for t_ in coll),
+           "the table of contents is collected in %s" % [t_[:40] for t_ in coll], so.where(),
+           what="the table of contents is collected in %s, which does not keep the order of insertion: get_toc returns the entries sorted by title bytes (or in hash order) instead of outline order" % [t_[:60] for t_ in coll])
     ctx.ob(R, "title-bytes-decoded-as-stored", not cut, "get_toc removes nothing from the title bytes before decoding them", gt.where(),
            what="get_toc removes bytes from a title before decoding it (%s): a UTF-16 title whose last unit ends in a zero byte (or whatever else is cut) is rejected or changed on read-back" % [("%s line %d: %s" % t_) for t_ in cut[:3]])
     # sibling links
